@@ -1,4 +1,5 @@
 """C09 -- Consistent-extension search and Meek orientation are sound and complete."""
+import itertools
 import symnp as np
 from harness.common import Obligation, PathResult
 from harness import inputs as I
@@ -15,7 +16,7 @@ META = dict(
                 "skeleton keeping directed edges and v-structures): pdag_to_dag must return a member of E / raise ValueError "
                 "iff E is empty; maximally_orient must return exactly the union graph of E (directed iff all members agree), "
                 "which implies same skeleton, directed edges kept, soundness, completeness and an unchanged extension set.",
-    bounds=dict(quick="PDAGs p <= 3 all; p = 4 all 3,608 with acyclic directed part; p = 5 'hub' PDAGs (node 0 joined to all other nodes by undirected edges, all 4^6 states of the remaining pairs) for maximally_orient; wide: 4-node PDAGs with <= 4 edges embedded at nodes 11,1,9,0 of a 12-node graph",
+    bounds=dict(quick="PDAGs p <= 3 all; p = 4 all 3,608 with acyclic directed part; p = 5 'hub' PDAGs (node 0 joined to all other nodes by undirected edges, all 4^6 states of the remaining pairs) for maximally_orient; p = 5 PDAGs with exactly one undirected edge and <= 4 directed edges; wide: 4-node PDAGs with <= 4 edges embedded at nodes 11,1,9,0 of a 12-node graph",
                 thorough="as quick plus p = 5 PDAGs in which node 0 has at least 3 undirected edges and p = 5 PDAGs with at most 6 edges"),
     outside=["PDAGs on 5 nodes outside the stated cubes; p > 5", "PDAGs whose directed part is cyclic"],
     stubs=["numpy -> symnp"],
@@ -87,6 +88,12 @@ def obligations(tier):
     ob.append(Obligation('pdag_wide_p12', h_pdag(True), I.embed_cubes(12, [11, 1, 9, 0], 3, extra=dict(max_edges=4)),
                          "4-node binary PDAGs with <= 4 edges embedded at nodes 11, 1, 9, 0 of a 12-node graph",
                          expect=('has extension', 'no extension'), weight=60))
+    one_und = []
+    for st in itertools.product((0, 1, 2), repeat=2):
+        one_und.append(dict(p=5, fixpairs=[[0, 1, 3], [0, 2, st[0]], [0, 3, st[1]]], no_other_undirected=True, max_edges=5))
+    ob.append(Obligation('pdag_p5_one_undirected', h_pdag(True), one_und,
+                         "5-node PDAGs with exactly one undirected edge (0 - 1) and at most 4 directed edges: forced orientations that close a long directed cycle",
+                         expect=('has extension', 'no extension'), weight=80))
     if tier == 'thorough':
         ob.append(Obligation('pdag_p5_le6', h_pdag(True), I.pair_cubes(5, 3, dict(max_edges=6)),
                              "binary PDAGs on 5 nodes with <= 6 edges", expect=('has extension', 'no extension'), weight=100,
